@@ -304,7 +304,7 @@ impl Prop for C02 {
         let max = tier.pick(40, 130);
         (
             prop_oneof![
-                4 => gen::digraph_labeled(max).prop_map(|(g, f)| (G::Contiguous(g), f)),
+                4 => gen::digraph_labeled_big(max).prop_map(|(g, f)| (G::Contiguous(g), f)),
                 1 => gen::map_digraph().prop_map(|g| (G::Map(g), "map".to_string())),
             ],
             vec(any::<u16>(), 64),
